@@ -39,7 +39,7 @@ CLAIMS = {
   "Assumed: Environment.Get frame, slices.Insert contract, reviewed writers (sort adapter, per-call argument slices, syntax-tree rewriting), extensions that build containers. Bounded stand-in is not a proof."),
  "C07": ("proof",
   "Zero-annotation safety sweep plus contracts: for the functions reachable from program evaluation that are under contract, every index, slice, nil dereference, type assertion, division, shift, make() size and explicit panic site is an "
-  "obligation proved unreachable for all inputs (or named in a maypanic clause that the caller handles as a language error). Extension calls go through applyExtension whose dyncall contract requires the argument-count/type checks to have passed; 30 extension callbacks (listed in ext_claimed.txt) are themselves verified, with integer-overflow obligations, under contracts the check synthesises on every run from their registration records (name, arity bounds, argument types, client data re-derived from the SSA of the registering functions) - one genuine defect found this way is fixed (regsub's arity).",
+  "obligation proved unreachable for all inputs (or named in a maypanic clause that the caller handles as a language error). Extension calls go through applyExtension whose dyncall contract requires the argument-count/type checks to have passed; 33 extension callbacks (listed in ext_claimed.txt) are themselves verified, with integer-overflow obligations, under contracts the check synthesises on every run from their registration records (name, arity bounds, argument types, client data re-derived from the SSA of the registering functions) - one genuine defect found this way is fixed (regsub's arity).",
   "Coverage is the set of functions tagged C07 in the contract files, not the whole interpreter: functions outside it - including the 14 extension callbacks with open obligations and the 10 registrations made in loops or with non-constant records - are listed in the evidence as unverified. Assumed stdlib contracts (library calls inside callbacks are abstracted); allocation failure (out of memory) is outside the model except where C09 guards it."),
  "C08": ("proof",
   "No input makes the lexer or the parser panic: the lexer functions are proved total and memory-safe for every byte string (the same contracts as C16, including NUL and invalid UTF-8), and every function of parser/parser.go is verified under the parser invariant wfP "
